@@ -42,6 +42,74 @@ def _in_block(c, n, block):
     return False
 
 
+def single_transaction_rules(c, R1='C21.no-inner-commit',
+                             R2='C21.no-implicit-commit',
+                             R3='C21.no-autocommit'):
+    """Nothing but execute_queued_items' own commit ends a transaction of
+    the DAO (shared with C20: a crash inside a batch must leave the previous
+    committed state)."""
+    for fn in ('CylcWorkflowDAO._execute_stmt', 'CylcWorkflowDAO.connect',
+               'CylcWorkflowDAO.close'):
+        f = c.func('rundb', fn)
+        n = c.find(f, '_.commit()')
+        c.ob(R1, f'{f.fq} :: no commit', not n,
+             c.where(f.node, f), '')
+    for f in c.idx.all_funcs():
+        if f.mod == 'rundb' and f.cls is not None and f.cls.name == \
+                'CylcDBTable':
+            c.ob(R1, f'{f.fq} :: no commit',
+                 not c.find(f, '_.commit()'), c.where(f.node, f), '')
+    # implicit commits: `with <sqlite connection>:` commits on normal exit;
+    # SQL text with COMMIT / END / BEGIN passed to execute
+    dao = c.idx.cls('CylcWorkflowDAO', 'rundb')
+    n_with = 0
+    for f in dao.methods.values():
+        c.funcs_seen.add(f.fq)
+        aliases = {'self.conn', 'self.connect()'}
+        for n in c.idx.walk(f.node):
+            if isinstance(n, ast.Assign) and norm(n.value) in aliases | {
+                    'sqlite3.connect'}:
+                aliases.add(norm(n.targets[0]))
+        for n in c.idx.walk(f.node):
+            if isinstance(n, (ast.With, ast.AsyncWith)):
+                for it in n.items:
+                    n_with += 1
+                    ce = norm(it.context_expr)
+                    bad = ce in aliases or ce.startswith('sqlite3.connect(')
+                    c.ob(R2,
+                         f'{f.fq} :: with {ce[:60]}', not bad, c.where(n, f),
+                         'not a connection context' if not bad else
+                         'a sqlite3 connection used as a context manager '
+                         'commits when the block exits: the batch is no '
+                         'longer one transaction and rollback is a no-op')
+            if isinstance(n, ast.Call) and isinstance(
+                    n.func, ast.Attribute) and n.func.attr in (
+                    'execute', 'executemany') and n.args and isinstance(
+                    n.args[0], ast.Constant) and isinstance(
+                        n.args[0].value, str):
+                sql = n.args[0].value.strip().upper()
+                bad = sql.startswith(('COMMIT', 'END', 'BEGIN', 'SAVEPOINT',
+                                      'RELEASE'))
+                if bad:
+                    c.ob(R2, c.key(n, f), False,
+                         c.where(n, f), f'explicit transaction control in '
+                         f'SQL text: {sql[:30]}')
+    c.ob(R2, 'rundb:CylcWorkflowDAO :: with-statements '
+         'examined', True, '', f'{n_with} with-items in the DAO')
+    # autocommit
+    conns = c.find('rundb', 'sqlite3.connect(*_)')
+    c.floor(R3, 'sqlite3.connect in rundb', len(conns), 1)
+    for n in conns:
+        kws = {k.arg for k in n.keywords}
+        c.ob(R3, c.key(n), not (
+            kws & {'isolation_level', 'autocommit'}), c.where(n),
+            f'keywords {sorted(k for k in kws if k)}')
+    iso = c.stores('rundb', 'isolation_level') + c.stores(
+        'rundb', 'autocommit')
+    c.ob(R3, 'rundb :: isolation_level/autocommit never '
+         'assigned', not iso, '', '')
+
+
 def check(c):
     ex = c.func('rundb', 'CylcWorkflowDAO.execute_queued_items')
     stmts = c.calls(ex, '_execute_stmt')
@@ -94,66 +162,7 @@ def check(c):
                 c.ob('C21.commit-after-loop', key + ' follows the loop', ok,
                      c.where(cm, ex), 'commit is after (and never before) '
                      'the statement loop')
-    for fn in ('CylcWorkflowDAO._execute_stmt', 'CylcWorkflowDAO.connect',
-               'CylcWorkflowDAO.close'):
-        f = c.func('rundb', fn)
-        n = c.find(f, '_.commit()')
-        c.ob('C21.no-inner-commit', f'{f.fq} :: no commit', not n,
-             c.where(f.node, f), '')
-    for f in c.idx.all_funcs():
-        if f.mod == 'rundb' and f.cls is not None and f.cls.name == \
-                'CylcDBTable':
-            c.ob('C21.no-inner-commit', f'{f.fq} :: no commit',
-                 not c.find(f, '_.commit()'), c.where(f.node, f), '')
-    # implicit commits: `with <sqlite connection>:` commits on normal exit;
-    # SQL text with COMMIT / END / BEGIN passed to execute
-    dao = c.idx.cls('CylcWorkflowDAO', 'rundb')
-    n_with = 0
-    for f in dao.methods.values():
-        c.funcs_seen.add(f.fq)
-        aliases = {'self.conn', 'self.connect()'}
-        for n in c.idx.walk(f.node):
-            if isinstance(n, ast.Assign) and norm(n.value) in aliases | {
-                    'sqlite3.connect'}:
-                aliases.add(norm(n.targets[0]))
-        for n in c.idx.walk(f.node):
-            if isinstance(n, (ast.With, ast.AsyncWith)):
-                for it in n.items:
-                    n_with += 1
-                    ce = norm(it.context_expr)
-                    bad = ce in aliases or ce.startswith('sqlite3.connect(')
-                    c.ob('C21.no-implicit-commit',
-                         f'{f.fq} :: with {ce[:60]}', not bad, c.where(n, f),
-                         'not a connection context' if not bad else
-                         'a sqlite3 connection used as a context manager '
-                         'commits when the block exits: the batch is no '
-                         'longer one transaction and rollback is a no-op')
-            if isinstance(n, ast.Call) and isinstance(
-                    n.func, ast.Attribute) and n.func.attr in (
-                    'execute', 'executemany') and n.args and isinstance(
-                    n.args[0], ast.Constant) and isinstance(
-                        n.args[0].value, str):
-                sql = n.args[0].value.strip().upper()
-                bad = sql.startswith(('COMMIT', 'END', 'BEGIN', 'SAVEPOINT',
-                                      'RELEASE'))
-                if bad:
-                    c.ob('C21.no-implicit-commit', c.key(n, f), False,
-                         c.where(n, f), f'explicit transaction control in '
-                         f'SQL text: {sql[:30]}')
-    c.ob('C21.no-implicit-commit', 'rundb:CylcWorkflowDAO :: with-statements '
-         'examined', True, '', f'{n_with} with-items in the DAO')
-    # autocommit
-    conns = c.find('rundb', 'sqlite3.connect(*_)')
-    c.floor('C21.no-autocommit', 'sqlite3.connect in rundb', len(conns), 1)
-    for n in conns:
-        kws = {k.arg for k in n.keywords}
-        c.ob('C21.no-autocommit', c.key(n), not (
-            kws & {'isolation_level', 'autocommit'}), c.where(n),
-            f'keywords {sorted(k for k in kws if k)}')
-    iso = c.stores('rundb', 'isolation_level') + c.stores(
-        'rundb', 'autocommit')
-    c.ob('C21.no-autocommit', 'rundb :: isolation_level/autocommit never '
-         'assigned', not iso, '', '')
+    single_transaction_rules(c)
     # error handling
     handlers = [h for h in the_try.handlers]
     sq = [h for h in handlers if h.type is not None and 'sqlite3.Error'
